@@ -225,6 +225,12 @@ func (h *histCtx) observeClasses(o *Op, ok bool, j *Judgement) {
 	if strings.Contains(o.Tag, "applied-earlier") {
 		r.Count("approvals_of_applied_requests", 1)
 	}
+	if strings.Contains(o.Tag, "overlap/applied-earlier") {
+		r.Count("approvals_of_overlapping_requests_applied_earlier", 1)
+	}
+	if strings.Contains(o.Tag, "adds-nothing") || strings.Contains(o.Tag, "removes-nothing") {
+		r.Count("approvals_of_requests_whose_action_changes_nothing", 1)
+	}
 	if strings.Contains(o.Tag, "returning/") {
 		r.Count("approvals_in_returning_rounds", 1)
 	}
